@@ -62,6 +62,91 @@ func parseField(field string, line int) (any, error) {
 }
 
 /*
+Value of a hexadecimal digit.
+Parameters:
+  - char - the digit.
+
+Returns:
+  - value of the digit,
+  - false if the character is not a hexadecimal digit.
+*/
+func unhex(char byte) (rune, bool) {
+	switch {
+	case '0' <= char && char <= '9':
+		return rune(char - '0'), true
+	case 'a' <= char && char <= 'f':
+		return rune(char-'a') + 10, true
+	case 'A' <= char && char <= 'F':
+		return rune(char-'A') + 10, true
+	}
+	return 0, false
+}
+
+/*
+Value of four hexadecimal digits.
+Parameters:
+  - str - string of the digits.
+
+Returns:
+  - the value,
+  - false if the string does not consist of four hexadecimal digits.
+*/
+func unhex4(str string) (rune, bool) {
+	if len(str) != 4 {
+		return 0, false
+	}
+	var value rune
+	for i := 0; i < 4; i++ {
+		digit, ok := unhex(str[i])
+		if !ok {
+			return 0, false
+		}
+		value = value<<4 | digit
+	}
+	return value, true
+}
+
+/*
+Rewrites the two escapes JSON has and Go string literals do not - an escaped solidus and a UTF-16 surrogate pair -
+so that the body of a string literal can be decoded by strconv.Unquote. Everything else is passed unchanged.
+Parameters:
+  - str - body of a string literal (without the quotation marks).
+
+Returns:
+  - body decodable by strconv.Unquote.
+*/
+func jsonEscapes(str string) string {
+	if !strings.Contains(str, "\\") {
+		return str
+	}
+	var result strings.Builder
+	for i := 0; i < len(str); i++ {
+		if str[i] != '\\' || i+1 >= len(str) {
+			result.WriteByte(str[i])
+			continue
+		}
+		if str[i+1] == '/' {
+			result.WriteByte('/')
+			i++
+			continue
+		}
+		if str[i+1] == 'u' && i+12 <= len(str) && str[i+6] == '\\' && str[i+7] == 'u' {
+			high, okHigh := unhex4(str[i+2 : i+6])
+			low, okLow := unhex4(str[i+8 : i+12])
+			if okHigh && okLow && 0xd800 <= high && high < 0xdc00 && 0xdc00 <= low && low < 0xe000 {
+				result.WriteRune((high-0xd800)<<10 | (low - 0xdc00) + 0x10000)
+				i += 11
+				continue
+			}
+		}
+		result.WriteByte('\\')
+		result.WriteByte(str[i+1])
+		i++
+	}
+	return result.String()
+}
+
+/*
 Recursively parses a JSON list.
 Patameters:
   - json - JSON string to parse,
@@ -168,7 +253,7 @@ func parseList(json string, line *int) (List, int, error) {
 				continue
 			}
 			if char == '"' {
-				str, _ := strconv.Unquote(fmt.Sprintf(`"%s"`, val.String()))
+				str, _ := strconv.Unquote(fmt.Sprintf(`"%s"`, jsonEscapes(val.String())))
 				list.Add(str)
 				val.Reset()
 				state = stateValAfterString
@@ -279,7 +364,7 @@ func parseObject(json string, line *int) (Object, int, error) {
 			if char != ':' {
 				return nil, 0, fmt.Errorf("not a valid JSON - expecting ':', got '%s' on line %d", string(char), *line)
 			}
-			str, _ := strconv.Unquote(fmt.Sprintf(`"%s"`, key.String()))
+			str, _ := strconv.Unquote(fmt.Sprintf(`"%s"`, jsonEscapes(key.String())))
 			key.Reset()
 			key.WriteString(str)
 			val.Reset()
@@ -378,7 +463,7 @@ func parseObject(json string, line *int) (Object, int, error) {
 				continue
 			}
 			if char == '"' {
-				str, _ := strconv.Unquote(fmt.Sprintf(`"%s"`, val.String()))
+				str, _ := strconv.Unquote(fmt.Sprintf(`"%s"`, jsonEscapes(val.String())))
 				object.Set(key.String(), str)
 				state = stateValAfterString
 				continue
